@@ -27,10 +27,14 @@ func init() {
 		Families: []family{
 			{Name: "accepted-x-fault", Fn: scnC05, Weight: 4, Group: 4 * len(c05Faults)},
 			{Name: "negatives", Fn: scnC05Neg, Weight: 1},
+			{Name: "logins-in-sequence", Fn: scnC05Seq, Weight: 1},
+			{Name: "cancel-with-lines-consumed", Fn: scnC05Consumed, Weight: 1},
 		},
 		Rule: "accepted public-key (exact / trailing text / certificate id) and password lines with generated fields x fault {none, consumer delayed by k steps, write error at the event write, " +
 			"cancellation while the hand-off is blocked on an unready correlator, cancellation before the call, correlator busy for 0.3-9 simulated seconds with the line going through the real syslog ingester callback, no fault with the framed line written in taped chunks to a simulated FIFO read by the real syslog ingester} enumerated within each group of runs; the sshd processor runs as a simulated task, the correlator side of the " +
 			"unbuffered logins channel is a second task under scheduler control; negatives: failure forms, unrecognised lines and failure lines whose client-chosen user name embeds a complete accepted-login message must forward nothing and write no succeeded event; " +
+			"logins-in-sequence: two to four accepted lines handled by one processor (re-issued certificates: same key and CA fingerprints, other key id), each judged like a single one; " +
+			"cancel-with-lines-consumed: several accepted lines arrive in one write, the hand-off of the first blocks, the context is cancelled: every line that had been consumed from the pipe completely by then still gets its UserLogin event, none is forwarded; " +
 			"non-trivial = the intended fault fired (or, for none/delayed, exactly one hand-off was observed); distinct = distinct (message, fault, delay, schedule hash)",
 		Quick: 8000, Thorough: 300000,
 	})
@@ -306,5 +310,165 @@ func scnC05Neg(rc *RunCtx) {
 			rc.Fail("C05", "succeeded-event-on-failure-line", "a %s line (%q) wrote a succeeded UserLogin event", m.Form, m.Msg)
 			return
 		}
+	}
+}
+
+// scnC05Seq: one processor handles several accepted logins one after the other (as the daemon's
+// does for its whole life); later certificate logins may be re-issued certificates for the key
+// of an earlier one (same key and CA fingerprints, different key id and serial).
+func scnC05Seq(rc *RunCtx) {
+	t := rc.Spec
+	ctx, cancel := context.WithCancel(context.Background())
+	rc.Cleanup(cancel)
+	rec := &Recorder{Sim: rc.Sim, NoPoint: true}
+	logins := make(chan common.RemoteUserLogin, 8)
+	sli := syslog.NewSyslogIngester("/unused", newSshdProc(ctx, rec, logins), namedpipe.NewNamedPipeIngester(nopLogger, health.NewHealth()))
+	n := 2 + t.Choose(3, "n")
+	var msgs []*SshdMsg
+	var certs []*LoginSpec
+	for i := 0; i < n; i++ {
+		form := []string{"accepted-cert", "accepted-key", "accepted-cert", "accepted-password", "accepted-keypad", "accepted-cert"}[t.Choose(6, "form")]
+		m := GenSshdMsg(t, form, i+1)
+		if m.Login.Form == "cert" {
+			if len(certs) > 0 && t.Choose(2, "reissued") == 1 {
+				o := certs[t.Choose(len(certs), "reissued.of")]
+				m.Login.Alg, m.Login.FP, m.Login.CAFP = o.Alg, o.FP, o.CAFP
+				m.Msg = m.Login.Message()
+				rc.Sim.Count("c05.reissued_certificate")
+			}
+			certs = append(certs, m.Login)
+		}
+		msgs = append(msgs, m)
+	}
+	var hs []string
+	for i, m := range msgs {
+		hs = append(hs, m.Msg)
+		ev0 := len(rec.Events)
+		if err := sli.Process(ctx, m.Line(t.Choose(3, "pad"))); err != nil {
+			rc.Fail("C05", "unexpected-error", "login %d of %d (%s): the processor returned %v", i+1, n, m.Form, err)
+			break
+		}
+		got := drainLogins(logins)
+		if len(rec.Events)-ev0 != 1 || rec.Events[ev0].Type != "UserLogin" || rec.Events[ev0].Outcome != "succeeded" {
+			rc.Fail("C05", "event-count", "login %d of %d (%s): %d events written, expected exactly one succeeded UserLogin", i+1, n, m.Form, len(rec.Events)-ev0)
+			break
+		}
+		if len(got) != 1 {
+			rc.Fail("C05", "forward-count", "login %d of %d (%s): %d logins forwarded, expected exactly one", i+1, n, m.Form, len(got))
+			break
+		}
+		wantPID, _ := strconv.Atoi(m.PID)
+		if got[0].PID != wantPID {
+			rc.Fail("C05", "forward-pid", "login %d of %d: forwarded PID %d, the line's PID is %s", i+1, n, got[0].PID, m.PID)
+			break
+		}
+		if got[0].CredUserID != m.Login.ExpCredUserID() {
+			rc.Fail("C05", "forward-cred", "login %d of %d (%s, after %d earlier logins on the same processor): forwarded credential user id %q, the line's is %q", i+1, n, m.Form, i, got[0].CredUserID, m.Login.ExpCredUserID())
+			break
+		}
+		if got[0].Source == nil || identityOfEvent(got[0].Source) != rec.Events[ev0].Identity() {
+			rc.Fail("C05", "forward-identity", "login %d of %d: the forwarded login's identity differs from the written event", i+1, n)
+			break
+		}
+	}
+	rc.CaseKey(hashStr(hs...))
+	rc.R.NonTrivial = len(certs) >= 1
+	rc.R.Sample = map[string]any{"messages": hs, "events_written": len(rec.Events)}
+}
+
+// scnC05Consumed: lines that the daemon has taken out of the pipe are not lost when its context
+// is cancelled: each still gets its UserLogin event (only the hand-off is skipped).
+func scnC05Consumed(rc *RunCtx) {
+	t := rc.Spec
+	ctx, cancel := context.WithCancel(context.Background())
+	rc.Cleanup(cancel)
+	rec := &Recorder{Sim: rc.Sim}
+	logins := make(chan common.RemoteUserLogin) // nobody receives: the first hand-off blocks
+	path := "/sim/c05-consumed-pipe"
+	pipe := rc.Sim.AddPipe(path)
+	sli := syslog.NewSyslogIngester(path, newSshdProc(ctx, rec, logins), namedpipe.NewNamedPipeIngester(nopLogger, health.NewHealth()))
+	res := &doneFlag{}
+	rc.Sim.Spawn("sshd-proc", func() { res.set(sli.Ingest(ctx)) })
+	n := 2 + t.Choose(4, "n")
+	var all []byte
+	var ends []int
+	var msgs []*SshdMsg
+	for i := 0; i < n; i++ {
+		m := GenSshdMsg(t, []string{"accepted-key", "accepted-password", "accepted-cert", "accepted-keypad"}[t.Choose(4, "form")], i+1)
+		// keep the burst well inside one read buffer
+		if len(m.Msg) > 600 {
+			m = GenSshdMsg(simrt.NewReplayTape(1, nil), "accepted-password", i+1)
+		}
+		msgs = append(msgs, m)
+		all = append(all, m.Line(0)...)
+		ends = append(ends, len(all))
+	}
+	w := pipe.OpenWriter()
+	rc.Cleanup(func() { w.Close() })
+	rc.Sim.Spawn("world.sshd", func() { w.Write(all) })
+	pipelinePolicy(rc)
+	blocked := func() bool {
+		for _, x := range rc.Sim.Live() {
+			if strings.HasPrefix(x, "sshd-proc ") && strings.Contains(x, "blocked-after@") && strings.Contains(x, "sshdprocessor.go") {
+				return true
+			}
+		}
+		return false
+	}
+	for i := 0; i < 20 && !blocked() && !res.v; i++ {
+		rc.Sim.RunUntil(func() bool { return res.v || blocked() }, 50000)
+		if !blocked() {
+			time.Sleep(100 * time.Millisecond)
+		}
+	}
+	inState := blocked()
+	consumed := pipe.BytesRead
+	cancel()
+	rc.Sim.Count("ctx.cancel")
+	for i := 0; i < 20 && !res.v; i++ {
+		rc.Sim.RunUntil(func() bool { return res.v }, 50000)
+		if !res.v {
+			time.Sleep(100 * time.Millisecond)
+		}
+	}
+	rc.Sim.RunUntil(nil, 50000)
+	want := 0
+	for _, e := range ends {
+		if e <= consumed {
+			want++
+		}
+	}
+	rc.CaseKey(hashStr(string(all)), consumed)
+	rc.R.NonTrivial = inState && want >= 2
+	rc.R.Sample = map[string]any{"lines": n, "bytes": len(all), "consumed_at_cancel": consumed, "lines_consumed_completely": want, "events_written": len(rec.Events), "returned": res.v, "error": fmt.Sprint(res.err)}
+	if !inState {
+		return
+	}
+	if !res.v {
+		rc.Fail("C05", "no-return", "the sshd ingester did not return after cancellation with its hand-off blocked: %v", rc.Sim.Live())
+		return
+	}
+	if len(drainLogins0(logins)) > 0 {
+		rc.Fail("C05", "forward-after-cancel", "a login was forwarded although nobody received and the context was cancelled")
+		return
+	}
+	if len(rec.Events) < want {
+		rc.Fail("C05", "consumed-line-lost", "%d accepted lines had been consumed from the pipe completely (%d of %d bytes) when the context was cancelled, but only %d UserLogin events were written: the others are gone from the pipe and from the record", want, consumed, len(all), len(rec.Events))
+		return
+	}
+	for i := 0; i < len(rec.Events) && i < len(msgs); i++ {
+		if rec.Events[i].Subjects["pid"] != msgs[i].PID || rec.Events[i].Outcome != "succeeded" {
+			rc.Fail("C05", "event-kind", "event %d is %s/%s for pid %s, expected the succeeded UserLogin of pid %s", i, rec.Events[i].Type, rec.Events[i].Outcome, rec.Events[i].Subjects["pid"], msgs[i].PID)
+			return
+		}
+	}
+}
+
+func drainLogins0(ch chan common.RemoteUserLogin) []common.RemoteUserLogin {
+	select {
+	case l := <-ch:
+		return []common.RemoteUserLogin{l}
+	default:
+		return nil
 	}
 }
